@@ -105,6 +105,7 @@ static int view_eq(uint64_t na, const uint16_t *a, uint64_t nb, const uint16_t *
 static int view_cmp(uint64_t na, const uint16_t *a, uint64_t nb, const uint16_t *b) { uint32_t m = (uint32_t)(na < nb ? na : nb);
   int c = vpl_cmp16(a, b, m, (uint32_t)na, (uint32_t)nb); if (c) return c; return na == nb ? 0 : (na < nb ? -1 : 1); }
 /* QAD-based loops: length, hint and data are dereferenced inside the loop condition/body so that they fold per candidate block */
+#define QCH16(d) ((uint16_t*)((char*)(d) + (d)->f3))
 #define QHINT16(d) ((d)->f3 == QS_OFF ? ((struct qs*)(d))->hint : (d)->f1)
 #define QHINT8(d) ((d)->f3 == QB_OFF ? ((struct qb*)(d))->hint : (d)->f1)
 #define QNUM16(d) ((d)->f3 == QS_OFF && ((struct qs*)(d))->isnum)
@@ -150,7 +151,6 @@ char* _ZN7QStringaSE13QLatin1String(char *self, uint32_t n, char *l) { QAD *d = 
 uint8_t _ZeqRK7QStringS1_(char *a, char *b) { return d_eq(*(QAD**)a, *(QAD**)b); }
 /* block-based order: every dereference is `block + constant offset`, so it folds per candidate when the block pointer is an if-then-else
    of several blocks (a raw character pointer passed through a parameter does not: its POINTER_OFFSET stays symbolic) */
-#define QCH16(d) ((uint16_t*)((char*)(d) + (d)->f3))
 /* QCAP: constant cap on the comparison loops. A string pointer loaded from a list slot after a symbolic sort carries an
    "unknown object" alternative in cbmc's value set (same block, different offsets => offset lost), whose hint is not a constant;
    the cap keeps the unrolling finite and small. Hitting the cap with both strings longer is flagged (inconclusive). */
@@ -226,9 +226,19 @@ void _ZN7QString6resizeEi(char *self, uint32_t n) { QAD *d = *(QAD**)self; if ((
 static QAD *vp_qs_wr;
 void _ZN7QString11reallocDataEjb(char *self, uint32_t alloc, uint8_t grow) { QAD *d = *(QAD**)self; ASSERT(alloc <= QS_CAP + 1, "QString capacity of the model exceeded"); if (REF(d) == 1 && VP_BLK_DYN(d)) { vp_qs_wr = d; return; }
   ASSERT(!numS(d).isnum, "detach of an abstract number string"); QAD *nd = qs_from(qs_chars(d), d->f1); ((struct qs*)nd)->hint = QS_CAP; qad_deref(d); *(QAD**)self = nd; vp_qs_wr = nd; }
-static void qs_append_raw(char *self, const uint16_t *p, uint32_t n, uint32_t hint) { QAD *a = *(QAD**)self; ASSERT(!numS(a).isnum, "append to an abstract number string"); uint32_t ha = qs_hint(a);
+/* C20: an unshared model block is appended to in place (Qt does the same when the capacity suffices); otherwise a new block */
+static void vpl_app16(QAD *a, const uint16_t *p, uint32_t n) { for (uint32_t i = 0; i < H16(p, n) && i < QCAP; i++) { if (i >= n) break; SD(a)[a->f1 + i] = p[i]; } }
+static void qs_append_raw(char *self, const uint16_t *p, uint32_t n, uint32_t hint) { QAD *a = *(QAD**)self; ASSERT(!numS(a).isnum, "append to an abstract number string");
+  if (REF(a) == 1 && VP_BLK_DYN(a)) { ASSERT(a->f1 + n <= QS_CAP, "QString capacity of the model exceeded"); ASSERT(n <= QCAP, "append longer than QCAP units");
+    vpl_app16(a, p, n); a->f1 = a->f1 + n; ((struct qs*)a)->hint = QS_CAP; return; }
+  uint32_t ha = qs_hint(a);
   QAD *d = qs_new(a->f1 + n, ha + hint); vpl_copy16(d, 0, qs_chars(a), a->f1, ha); vpl_copy16(d, a->f1, p, n, hint); qad_deref(a); *(QAD**)self = d; }
-char* _ZN7QString6appendERKS_(char *self, char *o) { QAD *a = *(QAD**)self, *b = *(QAD**)o; if (b->f1 == 0) return self; if (a->f1 == 0) { *(QAD**)self = qad_ref(b); qad_deref(a); return self; }
+static void vpl_appq16(QAD *a, QAD *b) { for (uint32_t i = 0; i < QHINT16(b) && i < QCAP; i++) { if (i >= b->f1) break; SD(a)[a->f1 + i] = QCH16(b)[i]; } }
+char* _ZN7QString6appendERKS_(char *self, char *o) { QAD *a = *(QAD**)self, *b = *(QAD**)o;
+  if (REF(a) == 1 && VP_BLK_DYN(a)) { /* C20: in place, also for an empty operand or an empty target (keeps the target block concrete) */
+    ASSERT(a->f1 + b->f1 <= QS_CAP, "QString capacity of the model exceeded"); ASSERT(b->f1 <= QCAP, "append longer than QCAP units"); ASSERT(!numS(b).isnum, "append of an abstract number string");
+    vpl_appq16(a, b); a->f1 = a->f1 + b->f1; ((struct qs*)a)->hint = QS_CAP; return self; }
+  if (b->f1 == 0) return self; if (a->f1 == 0) { *(QAD**)self = qad_ref(b); qad_deref(a); return self; }
   ASSERT(!numS(b).isnum, "append of an abstract number string"); qs_append_raw(self, qs_chars(b), b->f1, qs_hint(b)); return self; }
 char* _ZN7QString6appendE5QChar(char *self, uint16_t c) { qs_append_raw(self, &c, 1, 1); return self; }
 char* _ZN7QString6appendEPK5QChari(char *self, char *p, uint32_t n) { if (p && (int32_t)n > 0) { ASSERT(!num16((uint16_t*)p, n).isnum, "append of an abstract number string"); qs_append_raw(self, (uint16_t*)p, n, hint16((uint16_t*)p, n)); } return self; }
